@@ -1,9 +1,8 @@
-(* Proofs/SerdeRTTryFrom.v — C07, toml::Value::try_from / toml::Table::try_from (Model/Ser.v tv_ser,
-   tv_ser_table) read back by Value::try_into (Model/De.v tv_de).
-
-   FINDING (known class C07-tryfrom-nested-none-dropped): `SerializeMap::serialize_value`
-   (crates/toml/src/value.rs) swallows ANY UnsupportedNone coming out of a field's value, not only a
-   direct None, so the round-trip statement is FALSE for this family: tryfrom_refuted. *)
+(* Proofs/SerdeRTTryFrom.v — C07, toml::Value::try_from / toml::Table::try_from (Model/Ser.v tv_ser, tv_ser_table):
+   the former witnesses of the REPAIRED defect C07-tryfrom-nested-none-dropped, kept as regression statements.
+   `SerializeMap::serialize_value` (crates/toml/src/value.rs) swallowed ANY UnsupportedNone coming out of a field's
+   value, not only a direct None, so that V { v: Some(vec![Some(1), None]) } became the empty table and read back as
+   V { v: None }.  Now only a None handed DIRECTLY to the field's serializer leaves the entry out, as in toml_edit. *)
 From TV Require Import Base.Prelude Model.Datetime Model.SerNum Spec.SerdeData Model.Ser Model.De
   Proofs.SerdeRTBase Extract.Show.
 Require Import String.
@@ -15,22 +14,46 @@ Definition s3_val : sval := SRec [SSome (SSeq [SSome (SInt 1); SNone])].
 Definition s3b_ty : ty := TStruct (str "V") [(str "a", TInt TI32); (str "v", TSeq (TOpt (TInt TI32)))].
 Definition s3b_val : sval := SRec [SInt 1; SSeq [SNone]].
 
-(* the value is accepted, the field is silently dropped, and what reads back is a different value
-   (every other route refuses the same value with UnsupportedNone) *)
-Theorem tryfrom_refuted :
-  exists t v out,
-    has_type v t /\ tv_ser t v = Ok out /\ tv_ser_table t v = Ok out
-    /\ ser_value t v = Err EUnsupportedNone
-    /\ exists v', tv_de t out = Ok v' /\ ~ sval_eq v v'.
-Proof.
-  exists s3_ty, s3_val, (VTab []). repeat split; try (vm_compute; reflexivity).
-  exists (SRec [SNone]). split; [vm_compute; reflexivity|].
-  intro H. inversion H as [| | | | | | | | | | | |xs ys F| |]; subst.
-  inversion F as [|a b l l' Hab _]; subst. inversion Hab.
-Qed.
+(* both are refused by Value::try_from and Table::try_from, with the error every other route gives *)
+Theorem tryfrom_nested_none_refused :
+  has_type s3_val s3_ty /\ has_type s3b_val s3b_ty
+  /\ tv_ser s3_ty s3_val = Err EUnsupportedNone /\ tv_ser_table s3_ty s3_val = Err EUnsupportedNone
+  /\ ser_value s3_ty s3_val = Err EUnsupportedNone
+  /\ tv_ser s3b_ty s3b_val = Err EUnsupportedNone /\ tv_ser_table s3b_ty s3b_val = Err EUnsupportedNone
+  /\ ser_value s3b_ty s3b_val = Err EUnsupportedNone.
+Proof. repeat split; vm_compute; reflexivity. Qed.
 
-(* ... or does not read back at all *)
-Theorem tryfrom_refuted_undecodable :
-  exists t v out,
-    has_type v t /\ tv_ser t v = Ok out /\ ser_value t v = Err EUnsupportedNone /\ tv_de t out = Err EDe.
-Proof. exists s3b_ty, s3b_val, (VTab [(str "a", VInt 1)]). repeat split; vm_compute; reflexivity. Qed.
+(* the shapes a None can hide in below a field:
+   struct N { a: Option<Option<i32>>, b: W(Option<i32>), c: (Option<i32>, i32), d: E, e: Option<i32>, m: BTreeMap<String, Vec<Option<i32>>> }
+   enum E { P(Option<i32>), Q { x: Option<i32> } } *)
+Definition nn_i : ty := TOpt (TInt TI32).
+Definition nn_e : ty := TEnum (str "E") [(str "P", VNewtype nn_i); (str "Q", VStruct [(str "x", nn_i)])].
+Definition nn_ty : ty :=
+  TStruct (str "N") [(str "a", TOpt nn_i); (str "b", TNewtype (str "W") nn_i); (str "c", TTuple [nn_i; TInt TI32]);
+                     (str "d", nn_e); (str "e", nn_i); (str "m", TMap TStr (TSeq nn_i))].
+Definition nn_val (a b c d e m : sval) : sval := SRec [a; b; c; d; e; m].
+Definition nn_1 : sval := SSome (SInt 1).
+Definition nn_c : sval := SSeq [nn_1; SInt 2].
+Definition nn_d : sval := SVariant 0 nn_1.
+Definition nn_m (x : sval) : sval := SMap [(SStr (str "k"), SSeq [x])].
+
+(* a None handed directly to a field (a, e, and x of the struct variant Q) leaves the entry out ... *)
+Theorem tryfrom_direct_none_skipped :
+  let v := nn_val SNone (SNewtype nn_1) nn_c (SVariant 1 (SRec [SNone])) SNone (nn_m nn_1) in
+  has_type v nn_ty
+  /\ tv_ser nn_ty v = Ok (VTab [(str "b", VInt 1); (str "c", VArr [VInt 1; VInt 2]); (str "d", VTab [(str "Q", VTab [])]);
+                                (str "m", VTab [(str "k", VArr [VInt 1])])])
+  /\ ser_value nn_ty v = tv_ser nn_ty v /\ tv_ser_table nn_ty v = tv_ser nn_ty v.
+Proof. repeat split; vm_compute; reflexivity. Qed.
+
+(* ... and a None anywhere deeper is an error, as on the document routes: Some(None), a newtype around None, None in a
+   tuple, in a newtype variant's payload, in a sequence inside a map *)
+Theorem tryfrom_nested_none_shapes :
+  Forall (fun v => has_type v nn_ty /\ tv_ser nn_ty v = Err EUnsupportedNone /\ tv_ser_table nn_ty v = Err EUnsupportedNone
+                   /\ ser_value nn_ty v = Err EUnsupportedNone)
+    [nn_val (SSome SNone) (SNewtype nn_1) nn_c nn_d nn_1 (nn_m nn_1);
+     nn_val (SSome nn_1) (SNewtype SNone) nn_c nn_d nn_1 (nn_m nn_1);
+     nn_val (SSome nn_1) (SNewtype nn_1) (SSeq [SNone; SInt 2]) nn_d nn_1 (nn_m nn_1);
+     nn_val (SSome nn_1) (SNewtype nn_1) nn_c (SVariant 0 SNone) nn_1 (nn_m nn_1);
+     nn_val (SSome nn_1) (SNewtype nn_1) nn_c nn_d nn_1 (nn_m SNone)].
+Proof. repeat (apply Forall_cons; [repeat split; vm_compute; reflexivity|]). apply Forall_nil. Qed.
